@@ -144,6 +144,11 @@ pub struct RealEnum {
     pub key: &'static str,
     /// Debug string of the parsed value, e.g. `Abort(Abort { error: 108 })`
     pub parse: fn(&[u8]) -> Result<String, ZVTError>,
+    pub parse_quiet: fn(&[u8]) -> Result<(), ZVTError>,
+}
+
+fn parse_q<E: ZvtParser>(b: &[u8]) -> Result<(), ZVTError> {
+    E::zvt_parse(b).map(|_| ())
 }
 
 fn parse_dbg<E: ZvtParser + Debug>(b: &[u8]) -> Result<String, ZVTError> {
@@ -158,23 +163,23 @@ fn parse_ack(b: &[u8]) -> Result<String, ZVTError> {
 
 pub fn enums() -> Vec<RealEnum> {
     vec![
-        RealEnum { key: "Ack", parse: parse_ack },
-        RealEnum { key: "RegistrationResponse", parse: parse_dbg::<sequences::RegistrationResponse> },
-        RealEnum { key: "ReadCardResponse", parse: parse_dbg::<sequences::ReadCardResponse> },
-        RealEnum { key: "InitializationResponse", parse: parse_dbg::<sequences::InitializationResponse> },
-        RealEnum { key: "SetTerminalIdResponse", parse: parse_dbg::<sequences::SetTerminalIdResponse> },
-        RealEnum { key: "ResetTerminalResponse", parse: parse_dbg::<sequences::ResetTerminalResponse> },
-        RealEnum { key: "DiagnosisResponse", parse: parse_dbg::<sequences::DiagnosisResponse> },
-        RealEnum { key: "EndOfDayResponse", parse: parse_dbg::<sequences::EndOfDayResponse> },
-        RealEnum { key: "AuthorizationResponse", parse: parse_dbg::<sequences::AuthorizationResponse> },
-        RealEnum { key: "PartialReversalResponse", parse: parse_dbg::<sequences::PartialReversalResponse> },
-        RealEnum { key: "PrintSystemConfigurationResponse", parse: parse_dbg::<sequences::PrintSystemConfigurationResponse> },
-        RealEnum { key: "SelectLanguageResponse", parse: parse_dbg::<sequences::SelectLanguageResponse> },
-        RealEnum { key: "StatusEnquiryResponse", parse: parse_dbg::<sequences::StatusEnquiryResponse> },
-        RealEnum { key: "GetSystemInfoResponse", parse: parse_dbg::<feig::sequences::GetSystemInfoResponse> },
-        RealEnum { key: "WriteFileResponse", parse: parse_dbg::<feig::sequences::WriteFileResponse> },
-        RealEnum { key: "FactoryResetResponse", parse: parse_dbg::<feig::sequences::FactoryResetResponse> },
-        RealEnum { key: "ChangeHostConfigurationResponse", parse: parse_dbg::<feig::sequences::ChangeHostConfigurationResponse> },
+        RealEnum { key: "Ack", parse: parse_ack, parse_quiet: parse_q::<io::Ack> },
+        RealEnum { key: "RegistrationResponse", parse: parse_dbg::<sequences::RegistrationResponse>, parse_quiet: parse_q::<sequences::RegistrationResponse> },
+        RealEnum { key: "ReadCardResponse", parse: parse_dbg::<sequences::ReadCardResponse>, parse_quiet: parse_q::<sequences::ReadCardResponse> },
+        RealEnum { key: "InitializationResponse", parse: parse_dbg::<sequences::InitializationResponse>, parse_quiet: parse_q::<sequences::InitializationResponse> },
+        RealEnum { key: "SetTerminalIdResponse", parse: parse_dbg::<sequences::SetTerminalIdResponse>, parse_quiet: parse_q::<sequences::SetTerminalIdResponse> },
+        RealEnum { key: "ResetTerminalResponse", parse: parse_dbg::<sequences::ResetTerminalResponse>, parse_quiet: parse_q::<sequences::ResetTerminalResponse> },
+        RealEnum { key: "DiagnosisResponse", parse: parse_dbg::<sequences::DiagnosisResponse>, parse_quiet: parse_q::<sequences::DiagnosisResponse> },
+        RealEnum { key: "EndOfDayResponse", parse: parse_dbg::<sequences::EndOfDayResponse>, parse_quiet: parse_q::<sequences::EndOfDayResponse> },
+        RealEnum { key: "AuthorizationResponse", parse: parse_dbg::<sequences::AuthorizationResponse>, parse_quiet: parse_q::<sequences::AuthorizationResponse> },
+        RealEnum { key: "PartialReversalResponse", parse: parse_dbg::<sequences::PartialReversalResponse>, parse_quiet: parse_q::<sequences::PartialReversalResponse> },
+        RealEnum { key: "PrintSystemConfigurationResponse", parse: parse_dbg::<sequences::PrintSystemConfigurationResponse>, parse_quiet: parse_q::<sequences::PrintSystemConfigurationResponse> },
+        RealEnum { key: "SelectLanguageResponse", parse: parse_dbg::<sequences::SelectLanguageResponse>, parse_quiet: parse_q::<sequences::SelectLanguageResponse> },
+        RealEnum { key: "StatusEnquiryResponse", parse: parse_dbg::<sequences::StatusEnquiryResponse>, parse_quiet: parse_q::<sequences::StatusEnquiryResponse> },
+        RealEnum { key: "GetSystemInfoResponse", parse: parse_dbg::<feig::sequences::GetSystemInfoResponse>, parse_quiet: parse_q::<feig::sequences::GetSystemInfoResponse> },
+        RealEnum { key: "WriteFileResponse", parse: parse_dbg::<feig::sequences::WriteFileResponse>, parse_quiet: parse_q::<feig::sequences::WriteFileResponse> },
+        RealEnum { key: "FactoryResetResponse", parse: parse_dbg::<feig::sequences::FactoryResetResponse>, parse_quiet: parse_q::<feig::sequences::FactoryResetResponse> },
+        RealEnum { key: "ChangeHostConfigurationResponse", parse: parse_dbg::<feig::sequences::ChangeHostConfigurationResponse>, parse_quiet: parse_q::<feig::sequences::ChangeHostConfigurationResponse> },
     ]
 }
 
